@@ -1,1 +1,879 @@
+//! Query AST for the supported SQL fragment, SQL rendering, and a slow row-at-a-time reference
+//! evaluator (SQL three-valued logic, i128 arithmetic). No LocustDB engine code is used here.
 
+use std::cmp::Ordering;
+use std::collections::BTreeMap;
+
+use serde::{Deserialize, Serialize};
+
+use crate::model::{Cell, FBits};
+
+#[derive(Clone, Copy, Debug, PartialEq, Eq, Hash, Serialize, Deserialize)]
+pub enum BinOp {
+    Add,
+    Sub,
+    Mul,
+    Div,
+    Mod,
+    Eq,
+    Ne,
+    Lt,
+    Le,
+    Gt,
+    Ge,
+    And,
+    Or,
+}
+
+impl BinOp {
+    pub fn sql(self) -> &'static str {
+        match self {
+            BinOp::Add => "+",
+            BinOp::Sub => "-",
+            BinOp::Mul => "*",
+            BinOp::Div => "/",
+            BinOp::Mod => "%",
+            BinOp::Eq => "=",
+            BinOp::Ne => "<>",
+            BinOp::Lt => "<",
+            BinOp::Le => "<=",
+            BinOp::Gt => ">",
+            BinOp::Ge => ">=",
+            BinOp::And => "AND",
+            BinOp::Or => "OR",
+        }
+    }
+    pub fn is_cmp(self) -> bool {
+        matches!(self, BinOp::Eq | BinOp::Ne | BinOp::Lt | BinOp::Le | BinOp::Gt | BinOp::Ge)
+    }
+    pub fn is_arith(self) -> bool {
+        matches!(self, BinOp::Add | BinOp::Sub | BinOp::Mul | BinOp::Div | BinOp::Mod)
+    }
+}
+
+#[derive(Clone, Copy, Debug, PartialEq, Eq, Hash, Serialize, Deserialize)]
+pub enum AggKind {
+    Count,
+    Sum,
+    Min,
+    Max,
+    Avg,
+}
+
+impl AggKind {
+    pub fn sql(self) -> &'static str {
+        match self {
+            AggKind::Count => "count",
+            AggKind::Sum => "sum",
+            AggKind::Min => "min",
+            AggKind::Max => "max",
+            AggKind::Avg => "avg",
+        }
+    }
+}
+
+#[derive(Clone, Debug, PartialEq, Serialize, Deserialize)]
+pub enum Expr {
+    Col(String),
+    Int(i64),
+    Float(FBits),
+    Str(String),
+    Bin(BinOp, Box<Expr>, Box<Expr>),
+    Not(Box<Expr>),
+    IsNull(Box<Expr>),
+    IsNotNull(Box<Expr>),
+    /// (expr, pattern, negated)
+    Like(Box<Expr>, String, bool),
+    Regex(Box<Expr>, String),
+    Length(Box<Expr>),
+    Floor(Box<Expr>),
+    ToYear(Box<Expr>),
+    Agg(AggKind, Box<Expr>),
+}
+
+pub fn col(name: &str) -> Expr {
+    Expr::Col(name.to_string())
+}
+pub fn bin(op: BinOp, a: Expr, b: Expr) -> Expr {
+    Expr::Bin(op, Box::new(a), Box::new(b))
+}
+
+fn sql_str(s: &str) -> String {
+    format!("'{}'", s.replace('\'', "''"))
+}
+
+pub fn sql_ident(s: &str) -> String {
+    format!("\"{}\"", s)
+}
+
+pub fn sql_float(f: f64) -> String {
+    let s = format!("{}", f);
+    if s.contains('.') || s.contains("inf") || s.contains("NaN") {
+        s
+    } else {
+        format!("{}.0", s)
+    }
+}
+
+impl Expr {
+    pub fn sql(&self) -> String {
+        match self {
+            Expr::Col(c) => sql_ident(c),
+            Expr::Int(i) => format!("{}", i),
+            Expr::Float(f) => sql_float(f.get()),
+            Expr::Str(s) => sql_str(s),
+            Expr::Bin(op, a, b) => format!("({} {} {})", a.sql(), op.sql(), b.sql()),
+            Expr::Not(e) => format!("(NOT {})", e.sql()),
+            Expr::IsNull(e) => format!("({} IS NULL)", e.sql()),
+            Expr::IsNotNull(e) => format!("({} IS NOT NULL)", e.sql()),
+            Expr::Like(e, p, neg) => {
+                format!("({} {}LIKE {})", e.sql(), if *neg { "NOT " } else { "" }, sql_str(p))
+            }
+            Expr::Regex(e, p) => format!("regex({}, {})", e.sql(), sql_str(p)),
+            Expr::Length(e) => format!("length({})", e.sql()),
+            Expr::Floor(e) => format!("floor({})", e.sql()),
+            Expr::ToYear(e) => format!("to_year({})", e.sql()),
+            Expr::Agg(k, e) => format!("{}({})", k.sql(), e.sql()),
+        }
+    }
+
+    pub fn has_agg(&self) -> bool {
+        match self {
+            Expr::Agg(..) => true,
+            Expr::Bin(_, a, b) => a.has_agg() || b.has_agg(),
+            Expr::Not(e)
+            | Expr::IsNull(e)
+            | Expr::IsNotNull(e)
+            | Expr::Like(e, _, _)
+            | Expr::Regex(e, _)
+            | Expr::Length(e)
+            | Expr::Floor(e)
+            | Expr::ToYear(e) => e.has_agg(),
+            _ => false,
+        }
+    }
+
+    pub fn columns(&self, out: &mut Vec<String>) {
+        match self {
+            Expr::Col(c) => {
+                if !out.contains(c) {
+                    out.push(c.clone())
+                }
+            }
+            Expr::Bin(_, a, b) => {
+                a.columns(out);
+                b.columns(out);
+            }
+            Expr::Not(e)
+            | Expr::IsNull(e)
+            | Expr::IsNotNull(e)
+            | Expr::Like(e, _, _)
+            | Expr::Regex(e, _)
+            | Expr::Length(e)
+            | Expr::Floor(e)
+            | Expr::ToYear(e)
+            | Expr::Agg(_, e) => e.columns(out),
+            _ => {}
+        }
+    }
+
+    pub fn any<F: Fn(&Expr) -> bool + Copy>(&self, f: F) -> bool {
+        if f(self) {
+            return true;
+        }
+        match self {
+            Expr::Bin(_, a, b) => a.any(f) || b.any(f),
+            Expr::Not(e)
+            | Expr::IsNull(e)
+            | Expr::IsNotNull(e)
+            | Expr::Like(e, _, _)
+            | Expr::Regex(e, _)
+            | Expr::Length(e)
+            | Expr::Floor(e)
+            | Expr::ToYear(e)
+            | Expr::Agg(_, e) => e.any(f),
+            _ => false,
+        }
+    }
+}
+
+#[derive(Clone, Debug, PartialEq, Serialize, Deserialize)]
+pub struct SelectItem {
+    pub expr: Expr,
+    pub alias: Option<String>,
+}
+
+#[derive(Clone, Debug, PartialEq, Serialize, Deserialize)]
+pub struct Query {
+    pub select: Vec<SelectItem>,
+    pub table: String,
+    pub filter: Option<Expr>,
+    /// (expr, descending)
+    pub order_by: Vec<(Expr, bool)>,
+    pub limit: Option<u64>,
+    pub offset: Option<u64>,
+}
+
+impl Query {
+    pub fn sql(&self) -> String {
+        let mut s = String::from("SELECT ");
+        s.push_str(
+            &self
+                .select
+                .iter()
+                .map(|i| match &i.alias {
+                    Some(a) => format!("{} AS {}", i.expr.sql(), sql_ident(a)),
+                    None => i.expr.sql(),
+                })
+                .collect::<Vec<_>>()
+                .join(", "),
+        );
+        s.push_str(&format!(" FROM {}", sql_ident(&self.table)));
+        if let Some(f) = &self.filter {
+            s.push_str(&format!(" WHERE {}", f.sql()));
+        }
+        if !self.order_by.is_empty() {
+            s.push_str(" ORDER BY ");
+            s.push_str(
+                &self
+                    .order_by
+                    .iter()
+                    .map(|(e, d)| format!("{}{}", e.sql(), if *d { " DESC" } else { " ASC" }))
+                    .collect::<Vec<_>>()
+                    .join(", "),
+            );
+        }
+        if let Some(l) = self.limit {
+            s.push_str(&format!(" LIMIT {}", l));
+        }
+        if let Some(o) = self.offset {
+            s.push_str(&format!(" OFFSET {}", o));
+        }
+        s
+    }
+
+    pub fn is_aggregate(&self) -> bool {
+        self.select.iter().any(|i| i.expr.has_agg())
+    }
+}
+
+// ---------------------------------------------------------------------------------------------
+// Evaluation
+// ---------------------------------------------------------------------------------------------
+
+#[derive(Clone, Debug, PartialEq, Serialize, Deserialize)]
+pub enum EvalErr {
+    /// integer result outside i64, or division by zero
+    Overflow,
+    /// outside the typed fragment (the engine may decline)
+    Type(String),
+}
+
+/// A row: column name -> cell (absent = NULL).
+pub type Row<'a> = &'a BTreeMap<String, Cell>;
+
+pub fn cell_f64(c: &Cell) -> Option<f64> {
+    match c {
+        Cell::Int(i) => Some(*i as f64),
+        Cell::Float(f) => Some(f.get()),
+        _ => None,
+    }
+}
+
+fn fit(x: i128) -> Result<Cell, EvalErr> {
+    if x < i64::MIN as i128 || x > i64::MAX as i128 {
+        Err(EvalErr::Overflow)
+    } else {
+        Ok(Cell::Int(x as i64))
+    }
+}
+
+/// Three-valued comparison. None = UNKNOWN.
+pub fn compare_cells(a: &Cell, b: &Cell) -> Result<Option<Ordering>, EvalErr> {
+    Ok(match (a, b) {
+        (Cell::Null, _) | (_, Cell::Null) => None,
+        (Cell::Int(x), Cell::Int(y)) => Some(x.cmp(y)),
+        (Cell::Str(x), Cell::Str(y)) => Some(x.as_bytes().cmp(y.as_bytes())),
+        (Cell::Float(_), Cell::Float(_)) | (Cell::Int(_), Cell::Float(_)) | (Cell::Float(_), Cell::Int(_)) => {
+            let (x, y) = (cell_f64(a).unwrap(), cell_f64(b).unwrap());
+            match x.partial_cmp(&y) {
+                Some(o) => Some(o),
+                None => return Err(EvalErr::Type("NaN comparison".into())),
+            }
+        }
+        _ => return Err(EvalErr::Type(format!("compare {:?} with {:?}", a, b))),
+    })
+}
+
+fn truth(c: &Cell) -> Result<Option<bool>, EvalErr> {
+    match c {
+        Cell::Null => Ok(None),
+        Cell::Int(i) => Ok(Some(*i != 0)),
+        _ => Err(EvalErr::Type("non-boolean predicate".into())),
+    }
+}
+
+fn from_truth(t: Option<bool>) -> Cell {
+    match t {
+        None => Cell::Null,
+        Some(true) => Cell::Int(1),
+        Some(false) => Cell::Int(0),
+    }
+}
+
+/// SQL LIKE: % = any sequence, _ = exactly one character. No escape character.
+pub fn like_match(s: &str, pattern: &str) -> bool {
+    let s: Vec<char> = s.chars().collect();
+    let p: Vec<char> = pattern.chars().collect();
+    // dp[j] = pattern[..j] matches s[..i]
+    let mut dp = vec![false; p.len() + 1];
+    dp[0] = true;
+    for j in 0..p.len() {
+        dp[j + 1] = dp[j] && p[j] == '%';
+    }
+    for i in 0..s.len() {
+        let mut next = vec![false; p.len() + 1];
+        for j in 0..p.len() {
+            next[j + 1] = match p[j] {
+                '%' => next[j] || dp[j + 1],
+                '_' => dp[j],
+                c => dp[j] && c == s[i],
+            };
+        }
+        dp = next;
+    }
+    dp[p.len()]
+}
+
+pub fn year_of_timestamp(ts: i64) -> i64 {
+    // civil-from-days (Howard Hinnant), UTC
+    let days = ts.div_euclid(86400);
+    let z = days + 719468;
+    let era = z.div_euclid(146097);
+    let doe = z.rem_euclid(146097);
+    let yoe = (doe - doe / 1460 + doe / 36524 - doe / 146096) / 365;
+    let y = yoe + era * 400;
+    let doy = doe - (365 * yoe + yoe / 4 - yoe / 100);
+    let mp = (5 * doy + 2) / 153;
+    let m = if mp < 10 { mp + 3 } else { mp - 9 };
+    if m <= 2 {
+        y + 1
+    } else {
+        y
+    }
+}
+
+pub fn eval(e: &Expr, row: Row) -> Result<Cell, EvalErr> {
+    eval_sem(e, row, false)
+}
+
+/// `strict`: the documented deviation of the engine (known finding KF-or-null): AND/OR are NULL as
+/// soon as one operand is NULL, instead of Kleene logic.
+pub fn eval_sem(e: &Expr, row: Row, strict: bool) -> Result<Cell, EvalErr> {
+    let eval = |e: &Expr, row: Row| eval_sem(e, row, strict);
+    Ok(match e {
+        Expr::Col(c) => row.get(c).cloned().unwrap_or(Cell::Null),
+        Expr::Int(i) => Cell::Int(*i),
+        Expr::Float(f) => Cell::Float(*f),
+        Expr::Str(s) => Cell::Str(s.clone()),
+        Expr::Bin(op, a, b) if op.is_arith() => {
+            let (x, y) = (eval(a, row)?, eval(b, row)?);
+            match (&x, &y) {
+                (Cell::Null, _) | (_, Cell::Null) => Cell::Null,
+                (Cell::Int(p), Cell::Int(q)) => {
+                    let (p, q) = (*p as i128, *q as i128);
+                    match op {
+                        BinOp::Add => fit(p + q)?,
+                        BinOp::Sub => fit(p - q)?,
+                        BinOp::Mul => fit(p * q)?,
+                        BinOp::Div => {
+                            if q == 0 {
+                                return Err(EvalErr::Overflow);
+                            }
+                            fit(p / q)?
+                        }
+                        BinOp::Mod => {
+                            if q == 0 {
+                                return Err(EvalErr::Overflow);
+                            }
+                            fit(p % q)?
+                        }
+                        _ => unreachable!(),
+                    }
+                }
+                (Cell::Float(_), Cell::Int(_)) | (Cell::Int(_), Cell::Float(_)) | (Cell::Float(_), Cell::Float(_))
+                    if *op == BinOp::Mul =>
+                {
+                    Cell::float(cell_f64(&x).unwrap() * cell_f64(&y).unwrap())
+                }
+                _ => return Err(EvalErr::Type(format!("arith {:?} on {:?}, {:?}", op, x, y))),
+            }
+        }
+        Expr::Bin(op, a, b) if op.is_cmp() => {
+            let (x, y) = (eval(a, row)?, eval(b, row)?);
+            let o = compare_cells(&x, &y)?;
+            from_truth(o.map(|o| match op {
+                BinOp::Eq => o == Ordering::Equal,
+                BinOp::Ne => o != Ordering::Equal,
+                BinOp::Lt => o == Ordering::Less,
+                BinOp::Le => o != Ordering::Greater,
+                BinOp::Gt => o == Ordering::Greater,
+                BinOp::Ge => o != Ordering::Less,
+                _ => unreachable!(),
+            }))
+        }
+        Expr::Bin(BinOp::And, a, b) => {
+            let (x, y) = (truth(&eval(a, row)?)?, truth(&eval(b, row)?)?);
+            from_truth(match (x, y) {
+                (None, _) | (_, None) if strict => None,
+                (Some(false), _) | (_, Some(false)) => Some(false),
+                (Some(true), Some(true)) => Some(true),
+                _ => None,
+            })
+        }
+        Expr::Bin(BinOp::Or, a, b) => {
+            let (x, y) = (truth(&eval(a, row)?)?, truth(&eval(b, row)?)?);
+            from_truth(match (x, y) {
+                (None, _) | (_, None) if strict => None,
+                (Some(true), _) | (_, Some(true)) => Some(true),
+                (Some(false), Some(false)) => Some(false),
+                _ => None,
+            })
+        }
+        Expr::Bin(..) => unreachable!(),
+        Expr::Not(a) => from_truth(truth(&eval(a, row)?)?.map(|b| !b)),
+        Expr::IsNull(a) => from_truth(Some(eval(a, row)?.is_null())),
+        Expr::IsNotNull(a) => from_truth(Some(!eval(a, row)?.is_null())),
+        Expr::Like(a, p, neg) => match eval(a, row)? {
+            Cell::Null => Cell::Null,
+            Cell::Str(s) => from_truth(Some(like_match(&s, p) != *neg)),
+            x => return Err(EvalErr::Type(format!("LIKE on {:?}", x))),
+        },
+        Expr::Regex(a, p) => match eval(a, row)? {
+            Cell::Null => Cell::Null,
+            Cell::Str(s) => match regex::Regex::new(p) {
+                Ok(r) => from_truth(Some(r.is_match(&s))),
+                Err(_) => return Err(EvalErr::Type("regex does not compile".into())),
+            },
+            x => return Err(EvalErr::Type(format!("regex on {:?}", x))),
+        },
+        Expr::Length(a) => match eval(a, row)? {
+            Cell::Null => Cell::Null,
+            Cell::Str(s) => Cell::Int(s.len() as i64),
+            x => return Err(EvalErr::Type(format!("length of {:?}", x))),
+        },
+        Expr::Floor(a) => match eval(a, row)? {
+            Cell::Null => Cell::Null,
+            Cell::Float(f) => Cell::Int(f.get().floor() as i64),
+            Cell::Int(i) => Cell::Int(i),
+            x => return Err(EvalErr::Type(format!("floor of {:?}", x))),
+        },
+        Expr::ToYear(a) => match eval(a, row)? {
+            Cell::Null => Cell::Null,
+            Cell::Int(i) => Cell::Int(year_of_timestamp(i)),
+            x => return Err(EvalErr::Type(format!("to_year of {:?}", x))),
+        },
+        Expr::Agg(..) => return Err(EvalErr::Type("aggregate in row context".into())),
+    })
+}
+
+/// Is the row kept by the filter? (TRUE only)
+pub fn keeps(filter: &Option<Expr>, row: Row) -> Result<bool, EvalErr> {
+    keeps_sem(filter, row, false)
+}
+
+pub fn keeps_sem(filter: &Option<Expr>, row: Row, strict: bool) -> Result<bool, EvalErr> {
+    match filter {
+        None => Ok(true),
+        Some(f) => Ok(truth(&eval_sem(f, row, strict)?)? == Some(true)),
+    }
+}
+
+/// Does some AND/OR node of the filter see a NULL operand on some row?
+pub fn null_reaches_connective(filter: &Option<Expr>, rows: &[BTreeMap<String, Cell>]) -> bool {
+    fn walk(e: &Expr, row: Row) -> bool {
+        match e {
+            Expr::Bin(op, a, b) if matches!(op, BinOp::And | BinOp::Or) => {
+                matches!(eval(a, row), Ok(Cell::Null)) || matches!(eval(b, row), Ok(Cell::Null)) || walk(a, row) || walk(b, row)
+            }
+            Expr::Not(a) => walk(a, row),
+            _ => false,
+        }
+    }
+    match filter {
+        None => false,
+        Some(f) => rows.iter().any(|r| walk(f, r)),
+    }
+}
+
+/// Does the filter keep the same rows under Kleene logic and under the engine's strict AND/OR?
+pub fn strict_equivalent(filter: &Option<Expr>, rows: &[BTreeMap<String, Cell>]) -> bool {
+    rows.iter().all(|r| match (keeps_sem(filter, r, false), keeps_sem(filter, r, true)) {
+        (Ok(a), Ok(b)) => a == b,
+        _ => true,
+    })
+}
+
+/// Total order used for ORDER BY: NULL after every value (ascending).
+pub fn order_cells(a: &Cell, b: &Cell) -> Ordering {
+    match (a, b) {
+        (Cell::Null, Cell::Null) => Ordering::Equal,
+        (Cell::Null, _) => Ordering::Greater,
+        (_, Cell::Null) => Ordering::Less,
+        _ => compare_cells(a, b).ok().flatten().unwrap_or(Ordering::Equal),
+    }
+}
+
+pub fn order_keys(a: &[Cell], b: &[Cell], desc: &[bool]) -> Ordering {
+    for ((x, y), d) in a.iter().zip(b.iter()).zip(desc.iter()) {
+        let o = order_cells(x, y);
+        let o = if *d { o.reverse() } else { o };
+        if o != Ordering::Equal {
+            return o;
+        }
+    }
+    Ordering::Equal
+}
+
+/// Key equality for grouping and tie classes: numeric for floats (-0.0 = 0.0), NULL = NULL.
+pub fn key_eq(a: &Cell, b: &Cell) -> bool {
+    match (a, b) {
+        (Cell::Null, Cell::Null) => true,
+        (Cell::Null, _) | (_, Cell::Null) => false,
+        (Cell::Float(x), Cell::Float(y)) => x.get() == y.get(),
+        _ => a == b,
+    }
+}
+
+/// Canonical grouping key (so that -0.0 and 0.0 fall into one group).
+pub fn canon_key(c: &Cell) -> Cell {
+    match c {
+        Cell::Float(f) if f.get() == 0.0 => Cell::float(0.0),
+        c => c.clone(),
+    }
+}
+
+#[derive(Clone, Debug, PartialEq, Serialize, Deserialize)]
+pub struct Expected {
+    pub colnames: Vec<String>,
+    /// Reference rows in reference order (for non-ORDER BY: table order; for ORDER BY: a stable sort).
+    pub rows: Vec<Vec<Cell>>,
+    /// Sort keys per row (same order as `rows`), empty when the query has no ORDER BY.
+    pub keys: Vec<Vec<Cell>>,
+    /// Some row that the filter removes (or some group) overflows although the kept ones do not:
+    /// an engine that evaluates eagerly may legitimately report Overflow.
+    pub overflow_possible: bool,
+    /// float sums per output cell: (row, col) -> sum of |x| and count, for the tolerance
+    pub float_sum_scale: BTreeMap<(usize, usize), (f64, usize)>,
+    /// Source row index of each output row (non-aggregate queries).
+    pub source: Vec<usize>,
+}
+
+pub fn colname_of(item: &SelectItem) -> String {
+    match &item.alias {
+        Some(a) => a.clone(),
+        None => display_name(&item.expr),
+    }
+}
+
+/// The name the engine derives for an unaliased select item: the expression as written, quotes stripped
+/// from a plain identifier. Only plain columns are given unaliased by the generators where names matter.
+pub fn display_name(e: &Expr) -> String {
+    match e {
+        Expr::Col(c) => c.clone(),
+        e => e.sql(),
+    }
+}
+
+#[derive(Clone, Debug, Default)]
+struct Acc {
+    count: i64,
+    sum_i: i128,
+    sum_f: f64,
+    sum_abs: f64,
+    is_float: bool,
+    min: Option<Cell>,
+    max: Option<Cell>,
+}
+
+fn eval_agg_expr(e: &Expr, accs: &BTreeMap<String, Acc>, group_row: Row) -> Result<Cell, EvalErr> {
+    match e {
+        Expr::Agg(kind, inner) => {
+            let acc = &accs[&e.sql()];
+            let _ = inner;
+            Ok(match kind {
+                AggKind::Count => Cell::Int(acc.count),
+                AggKind::Sum => {
+                    if acc.count == 0 {
+                        Cell::Null
+                    } else if acc.is_float {
+                        Cell::float(acc.sum_f)
+                    } else {
+                        fit(acc.sum_i)?
+                    }
+                }
+                AggKind::Min => acc.min.clone().unwrap_or(Cell::Null),
+                AggKind::Max => acc.max.clone().unwrap_or(Cell::Null),
+                AggKind::Avg => {
+                    if acc.count == 0 {
+                        Cell::Null
+                    } else if acc.is_float {
+                        return Err(EvalErr::Type("avg(float)".into()));
+                    } else {
+                        let s = fit(acc.sum_i)?;
+                        match s {
+                            Cell::Int(s) => Cell::Int(s / acc.count),
+                            _ => unreachable!(),
+                        }
+                    }
+                }
+            })
+        }
+        Expr::Bin(op, a, b) if op.is_arith() => {
+            let x = eval_agg_expr(a, accs, group_row)?;
+            let y = eval_agg_expr(b, accs, group_row)?;
+            let mut tmp = BTreeMap::new();
+            tmp.insert("x".to_string(), x);
+            tmp.insert("y".to_string(), y);
+            eval(&bin(*op, col("x"), col("y")), &tmp)
+        }
+        e if !e.has_agg() => eval(e, group_row),
+        _ => Err(EvalErr::Type("unsupported aggregate expression".into())),
+    }
+}
+
+fn collect_aggs(e: &Expr, out: &mut Vec<Expr>) {
+    match e {
+        Expr::Agg(..) => {
+            if !out.contains(e) {
+                out.push(e.clone())
+            }
+        }
+        Expr::Bin(_, a, b) => {
+            collect_aggs(a, out);
+            collect_aggs(b, out);
+        }
+        _ => {}
+    }
+}
+
+/// Runs a query over rows (in table order).
+pub fn run(q: &Query, rows: &[BTreeMap<String, Cell>]) -> Result<Expected, EvalErr> {
+    run_sem(q, rows, false)
+}
+
+pub fn run_sem(q: &Query, rows: &[BTreeMap<String, Cell>], strict: bool) -> Result<Expected, EvalErr> {
+    let colnames: Vec<String> = q.select.iter().map(colname_of).collect();
+    let mut overflow_possible = false;
+    let mut kept: Vec<usize> = vec![];
+    for (i, r) in rows.iter().enumerate() {
+        if keeps_sem(&q.filter, r, strict)? {
+            kept.push(i);
+        }
+    }
+    if !q.is_aggregate() {
+        // Would a filtered-out row overflow in a select/order expression?
+        for (i, r) in rows.iter().enumerate() {
+            if kept.binary_search(&i).is_err() {
+                for it in &q.select {
+                    if let Err(EvalErr::Overflow) = eval(&it.expr, r) {
+                        overflow_possible = true;
+                    }
+                }
+            }
+        }
+        let desc: Vec<bool> = q.order_by.iter().map(|x| x.1).collect();
+        let mut items: Vec<(usize, Vec<Cell>, Vec<Cell>)> = vec![];
+        for &i in &kept {
+            let r = &rows[i];
+            let mut out = vec![];
+            for it in &q.select {
+                out.push(eval(&it.expr, r)?);
+            }
+            let mut key = vec![];
+            for (e, _) in &q.order_by {
+                key.push(eval(e, r)?);
+            }
+            items.push((i, out, key));
+        }
+        if !q.order_by.is_empty() {
+            items.sort_by(|a, b| order_keys(&a.2, &b.2, &desc));
+        }
+        let off = q.offset.unwrap_or(0) as usize;
+        let lim = q.limit.map(|l| l as usize).unwrap_or(usize::MAX);
+        let sliced: Vec<_> = items.into_iter().skip(off).take(lim).collect();
+        return Ok(Expected {
+            colnames,
+            source: sliced.iter().map(|x| x.0).collect(),
+            rows: sliced.iter().map(|x| x.1.clone()).collect(),
+            keys: sliced.iter().map(|x| x.2.clone()).collect(),
+            overflow_possible,
+            float_sum_scale: BTreeMap::new(),
+        });
+    }
+
+    // Aggregation: group by the non-aggregate select items.
+    let group_exprs: Vec<&Expr> = q.select.iter().map(|i| &i.expr).filter(|e| !e.has_agg()).collect();
+    let mut aggs: Vec<Expr> = vec![];
+    for it in &q.select {
+        collect_aggs(&it.expr, &mut aggs);
+    }
+    for (e, _) in &q.order_by {
+        collect_aggs(e, &mut aggs);
+    }
+    // group key -> (representative row of group-expression values, accumulators)
+    let mut groups: Vec<(Vec<Cell>, BTreeMap<String, Cell>, BTreeMap<String, Acc>)> = vec![];
+    let mut index: BTreeMap<Vec<Cell>, usize> = BTreeMap::new();
+    for &i in &kept {
+        let r = &rows[i];
+        let mut key = vec![];
+        for g in &group_exprs {
+            key.push(canon_key(&eval(g, r)?));
+        }
+        let gi = *index.entry(key.clone()).or_insert_with(|| {
+            let mut gr = BTreeMap::new();
+            for (g, k) in group_exprs.iter().zip(key.iter()) {
+                gr.insert(g.sql(), k.clone());
+            }
+            groups.push((key.clone(), gr, BTreeMap::new()));
+            groups.len() - 1
+        });
+        for a in &aggs {
+            if let Expr::Agg(kind, inner) = a {
+                let acc = groups[gi].2.entry(a.sql()).or_default();
+                let v = match eval(inner, r) {
+                    Ok(v) => v,
+                    Err(EvalErr::Overflow) => return Err(EvalErr::Overflow),
+                    Err(e) => return Err(e),
+                };
+                match (&v, kind) {
+                    (Cell::Null, _) => {}
+                    (_, AggKind::Count) => acc.count += 1,
+                    (Cell::Int(x), _) => {
+                        acc.count += 1;
+                        acc.sum_i += *x as i128;
+                        if acc.min.as_ref().map(|m| order_cells(&v, m) == Ordering::Less).unwrap_or(true) {
+                            acc.min = Some(v.clone());
+                        }
+                        if acc.max.as_ref().map(|m| order_cells(&v, m) == Ordering::Greater).unwrap_or(true) {
+                            acc.max = Some(v.clone());
+                        }
+                    }
+                    (Cell::Float(x), _) => {
+                        acc.count += 1;
+                        acc.is_float = true;
+                        acc.sum_f += x.get();
+                        acc.sum_abs += x.get().abs();
+                        if acc.min.as_ref().map(|m| order_cells(&v, m) == Ordering::Less).unwrap_or(true) {
+                            acc.min = Some(v.clone());
+                        }
+                        if acc.max.as_ref().map(|m| order_cells(&v, m) == Ordering::Greater).unwrap_or(true) {
+                            acc.max = Some(v.clone());
+                        }
+                    }
+                    (x, _) => return Err(EvalErr::Type(format!("aggregate over {:?}", x))),
+                }
+            }
+        }
+    }
+    // accumulators for groups that saw no value still need entries
+    for g in groups.iter_mut() {
+        for a in &aggs {
+            g.2.entry(a.sql()).or_default();
+        }
+    }
+    let mut out_rows: Vec<(Vec<Cell>, Vec<Cell>)> = vec![];
+    let mut scales = vec![];
+    for (_, gr, accs) in &groups {
+        // evaluate non-aggregate items from the stored key values
+        let mut row = vec![];
+        let mut scale_row = vec![];
+        for it in &q.select {
+            let v = if it.expr.has_agg() {
+                eval_agg_expr(&it.expr, accs, &BTreeMap::new())?
+            } else {
+                gr[&it.expr.sql()].clone()
+            };
+            let sc = match &it.expr {
+                Expr::Agg(AggKind::Sum, _) => {
+                    let a = &accs[&it.expr.sql()];
+                    if a.is_float {
+                        Some((a.sum_abs, a.count as usize))
+                    } else {
+                        None
+                    }
+                }
+                _ => None,
+            };
+            scale_row.push(sc);
+            row.push(v);
+        }
+        let mut key = vec![];
+        for (e, _) in &q.order_by {
+            let v = if e.has_agg() {
+                eval_agg_expr(e, accs, &BTreeMap::new())?
+            } else {
+                match gr.get(&e.sql()) {
+                    Some(v) => v.clone(),
+                    None => return Err(EvalErr::Type("ORDER BY expression not in select list".into())),
+                }
+            };
+            key.push(v);
+        }
+        out_rows.push((row, key));
+        scales.push(scale_row);
+    }
+    // Reference order of groups: by key (engine order is unspecified without ORDER BY).
+    let desc: Vec<bool> = q.order_by.iter().map(|x| x.1).collect();
+    let mut order: Vec<usize> = (0..out_rows.len()).collect();
+    if !q.order_by.is_empty() {
+        order.sort_by(|&a, &b| order_keys(&out_rows[a].1, &out_rows[b].1, &desc));
+    }
+    let off = q.offset.unwrap_or(0) as usize;
+    let lim = q.limit.map(|l| l as usize).unwrap_or(usize::MAX);
+    let order: Vec<usize> = order.into_iter().skip(off).take(lim).collect();
+    let mut float_sum_scale = BTreeMap::new();
+    for (ri, &gi) in order.iter().enumerate() {
+        for (ci, sc) in scales[gi].iter().enumerate() {
+            if let Some(sc) = sc {
+                float_sum_scale.insert((ri, ci), *sc);
+            }
+        }
+    }
+    Ok(Expected {
+        colnames,
+        rows: order.iter().map(|&i| out_rows[i].0.clone()).collect(),
+        keys: order.iter().map(|&i| out_rows[i].1.clone()).collect(),
+        overflow_possible,
+        float_sum_scale,
+        source: vec![],
+    })
+}
+
+/// Table rows from a column map.
+pub fn rows_of(cols: &BTreeMap<String, Vec<Cell>>, n: usize) -> Vec<BTreeMap<String, Cell>> {
+    (0..n)
+        .map(|i| cols.iter().map(|(k, v)| (k.clone(), v[i].clone())).collect())
+        .collect()
+}
+
+/// Cell equality as a query result: ints exact, strings exact, floats numeric (-0.0 = 0.0) unless a
+/// tolerance applies.
+pub fn result_cell_eq(exp: &Cell, got: &Cell, tol: Option<(f64, usize)>) -> bool {
+    match (exp, got) {
+        (Cell::Float(a), Cell::Float(b)) => {
+            let (a, b) = (a.get(), b.get());
+            if a == b || (a.is_nan() && b.is_nan()) {
+                return true;
+            }
+            match tol {
+                Some((sum_abs, n)) => {
+                    let eps = 2.0 * (n as f64 + 1.0) * f64::EPSILON * sum_abs;
+                    (a - b).abs() <= eps
+                }
+                None => false,
+            }
+        }
+        _ => exp == got,
+    }
+}
